@@ -389,8 +389,21 @@ def correspond(ck, batch, src="src"):
     return info
 
 
+def _watchdog(limit_s):
+    """a wedged rig must never look like a verdict: exit 2 after limit_s"""
+    import threading
+
+    def w():
+        time.sleep(limit_s)
+        sys.stderr.write(f"HARNESS-ERROR C11: no result after {limit_s} s (rig wedged?)\n")
+        sys.stderr.flush()
+        os._exit(2)
+    threading.Thread(target=w, daemon=True, name="c11-watchdog").start()
+
+
 def run(tier, seed):
     from harness import c11rig
+    _watchdog(900 if tier == "quick" else 3000)
     ck = Check(PID, tier, seed, level="proof")
     ck.rule = ("case = configuration (stack sync|asyncio x platform {5 core, generic} x channel_log sink {none, path, True, BytesIO} x "
                "on_open/on_close {platform default, user ok, user raises, None} x in-channel auth on/off) + well-formed history over "
